@@ -4,6 +4,9 @@ import (
 	"fmt"
 	"math"
 	"math/rand"
+	"strings"
+	"unicode"
+	"unicode/utf8"
 
 	"verif/core"
 	"verif/model"
@@ -641,6 +644,37 @@ func init() {
 					}
 					prog = append(prog, model.Text{S: ">"})
 					judgeProgram(c, prog, map[string]model.Value{"n": model.Int(0)}, "names-after-blocks", false)
+				}})
+			// names that only resemble reserved words or other bound names: they are ordinary variables (from the data, or
+			// assigned); a name that is not bound is unknown even when a capitalised or otherwise similar one is
+			trickyNames := []string{"loops", "loopCount", "loop_", "loop2", "looping", "Loop", "LOOP", "lOOP", "inn", "In", "iN", "index", "nile", "Nil", "nIL", "nill", "truE", "trueish", "TRUE", "falsey", "False",
+				"iff", "ifx", "elsewhere", "ended", "endx", "eachOne", "forx", "breakIfNot", "breaks", "continued", "use_", "insertion", "slotted", "dumped", "reserved", "component1", "_x", "x_1", "a1b2", "e", "E"}
+			secs = append(secs, core.Section{Name: "tricky-names", Exhaustive: true, N: len(trickyNames) * 4,
+				Run: func(c *core.Ctx, i int) {
+					name := trickyNames[i/4]
+					v := model.Var{Name: name}
+					three := model.Binary{Op: "+", L: model.Binary{Op: "*", L: v, R: model.Lit{V: model.Int(2)}}, R: model.Lit{V: model.Int(1)}}
+					switch i % 4 {
+					case 0: // bound by the data
+						judgeExpr(c, three, map[string]model.Value{name: model.Int(4)}, "tricky-name")
+					case 1: // assigned, then read
+						judgeProgram(c, []model.Stmt{model.Assign{Name: name, E: model.Binary{Op: "+", L: model.Lit{V: model.Int(2)}, R: model.Binary{Op: "*", L: model.Lit{V: model.Int(3)}, R: model.Lit{V: model.Int(4)}}}},
+							model.Text{S: "<"}, model.Print{E: model.Binary{Op: "-", L: v, R: model.Lit{V: model.Int(1)}}}, model.Text{S: ">"}}, nil, "tricky-name", false)
+					case 2: // not bound; look-alikes are: other letter case, capitalised, with a suffix, without the last letter
+						first, size := utf8.DecodeRuneInString(name)
+						data := map[string]model.Value{name + "x": model.Int(1), name[:len(name)-1]: model.Int(2)}
+						for _, other := range []string{string(unicode.ToUpper(first)) + name[size:], string(unicode.ToLower(first)) + name[size:], strings.ToUpper(name), strings.ToLower(name)} {
+							if other != name {
+								data[other] = model.Int(5)
+							}
+						}
+						delete(data, "")
+						delete(data, "loop")
+						judgeExpr(c, three, data, "tricky-name-unbound")
+					default: // as a property and as an object key
+						obj := model.ObjLit{Keys: []string{name}, Vals: []model.Expr{model.Lit{V: model.Int(6)}}}
+						judgeExpr(c, model.Binary{Op: "+", L: model.Dot{X: obj, Name: name}, R: model.Index{X: obj, I: model.Lit{V: model.Str(name)}}}, nil, "tricky-name-property")
+					}
 				}})
 			// the same expression evaluated in several passes of a loop gives the same value every time
 			// long and deep expressions: chains of 16..1000 operands, nests of 64..300 parentheses, ternaries, prefix
